@@ -1,5 +1,6 @@
 import P9Model.Driver.Parse
 import P9Model.Wire.Registry
+import P9Model.Gen.Layouts
 import P9Model.Transport.Seg
 /-! K1 / K2 drivers: codec and framing correspondence. -/
 namespace P9.Driver
@@ -52,6 +53,25 @@ def k2 (t : Tokens) : String :=
       | .connErr => acc
       | _ => go fuel (i+1) r.rest acc
   " ".intercalate (go (s.length / 7 + 2) 0 s [])
+
+/-- kprim: every codec primitive is what the extractor takes it to be (`Gen.primTable`): a write
+produces `encA` of its kind, a read returns `decA` of its kind, running out of bytes sets the sticky
+flag and yields the zero value. -/
+def kprim (t : Tokens) : String :=
+  match Gen.primTable.find? (·.1 == t.str "name") with
+  | none => "unknown-primitive"
+  | some (_, w, k) =>
+    if w then
+      let a : Atom := match k with
+        | .str => .str (t.bytes "s")
+        | .int wd => .int (t.nat "v" % 2 ^ (8 * wd))
+        | .masked wd _ => .int (t.nat "v" % 2 ^ (8 * wd))
+      s!"out={hex (encA k a)}"
+    else
+      match decA k (t.bytes "data") with
+      | none => "overrun=1 v=0 s=x"
+      | some (.int v, r) => s!"overrun=0 v={v} s=x left={r.length}"
+      | some (.str s, r) => s!"overrun=0 v=0 s={hex s} left={r.length}"
 
 /-- K2 at the server: the outcomes of `recv1` over the stream decide what the server does – a
 delivered message (here: one naming an unbound fid) and a protocol error are both answered with
